@@ -244,6 +244,24 @@ Theorem C20_model_is_source_inter_chain_mse_variance : forall m P o ch nm e,
 Proof. exact src_ev_inter_chain_is_model. Qed.
 Print Assumptions C20_model_is_source_inter_chain_mse_variance.
 
+(* models/main.py predict_viability_avg and retrospective.py calculate_mse (Generated/SrcMetrics.v): the thetas are the
+   list of the prediction vectors they give on the screen, the observed screen is its observations.  No side condition. *)
+Theorem C20_model_is_source_predict_viability_avg : forall (size : nat) (pt : list (list Qc)),
+  src_predict_viability_avg size pt
+  = if negb (forallb (fun r => Nat.eqb (length r) size) pt) then Err E_VALUE
+    else match pt, size with
+         | [], O => Ok []
+         | [], _ => Err E_NAN
+         | _, _ => Ok (predict_avg size pt)
+         end.
+Proof. exact src_predict_viability_avg_is_model. Qed.
+Print Assumptions C20_model_is_source_predict_viability_avg.
+
+Theorem C20_model_is_source_calculate_mse : forall (pt : list (list Qc)) (obs : list Qc),
+  src_calculate_mse pt obs = calculate_mse pt obs.
+Proof. exact src_calculate_mse_is_model. Qed.
+Print Assumptions C20_model_is_source_calculate_mse.
+
 (* models/main.py combination_count and generate_full_combinatoric_space (Generated/SrcSpace.v).  The translation works on
    mapping rows ((name, dose), id); the model on rows (key, id): [key] is any numbering of the (name, dose) pairs that is
    injective on the pairs of the mapping's rows (the harness numbers the distinct pairs). *)
